@@ -10,7 +10,7 @@ Everything is derived from the syntax trees:
                     algebraic normal form of the condition with role atoms (xi, gi, fi, xj, gj, fj, xs, fs, ...).
 """
 import ast
-from .model import (AnalysisError, src, call_name, get_arg, params_of, dotted, loc, is_const, norm_stmt, iter_base)
+from .model import (AnalysisError, src, call_name, get_arg, params_of, dotted, loc, is_const, norm_stmt, iter_base, clone)
 from .nf import (Evaluator, Rat, PointV, ExprV, ConsV, TupleV, Opaque, SortError, to_rat)
 from . import flow
 
@@ -97,15 +97,28 @@ def analyse_generator(repo, fn, arity):
         raise AnalysisError("%s: expected %d nested sample loops around the callback call, found %d" % (fn.name, arity, len(loops)))
     g.loops = []
     g.list_params = []
+    g.comp_of = {}
     for (n, base, enum) in loops:
-        idx, el = _loop_target_names(n.target) if enum else (None, _loop_target_names(n.target)[1])
+        tgt = n.target
+        idx = None
+        if enum:
+            if not (isinstance(tgt, ast.Tuple) and len(tgt.elts) == 2 and isinstance(tgt.elts[0], ast.Name)):
+                raise AnalysisError("loop target %s outside the analysed fragment" % src(tgt))
+            idx, tgt = tgt.elts[0].id, tgt.elts[1]
+        if isinstance(tgt, ast.Name):
+            el = tgt.id
+        elif isinstance(tgt, ast.Tuple) and len(tgt.elts) == 3 and all(isinstance(e, ast.Name) for e in tgt.elts):
+            el = "<unpacked@%d>" % n.lineno
+            for c, e in enumerate(tgt.elts):
+                g.comp_of[e.id] = (len(g.loops), c)
+        else:
+            raise AnalysisError("loop target %s outside the analysed fragment" % src(tgt))
         whole = isinstance(base, ast.Name) and base.id in params
         inside = sorted({x.id for x in ast.walk(base) if isinstance(x, ast.Name) and x.id in params})
         pname = base.id if whole else (inside[0] if len(inside) == 1 else None)
         g.loops.append({"node": n, "iter": base, "enumerated": enum, "index": idx, "element": el, "whole": whole, "param": pname})
         g.list_params.append(pname)
-    # unpacking of the loop elements:   a, b, c = element
-    g.comp_of = {}     # local name -> (loop number, component)
+    # unpacking of the loop elements:   a, b, c = element        (local name -> (loop number, component))
     for n in ast.walk(fn):
         if isinstance(n, ast.Assign) and len(n.targets) == 1 and isinstance(n.targets[0], ast.Tuple) \
                 and isinstance(n.value, ast.Name):
@@ -441,6 +454,9 @@ def _bind(ev, target, val):
 
 def guard_text(test, polarity=True):
     """Canonical text of a parameter guard: spelling variants of 'parameter is finite' / 'parameter is set' map to one text."""
+    if not polarity:
+        test = ast.UnaryOp(op=ast.Not(), operand=test)
+        polarity = True
     t = " ".join(src(test).replace("numpy.", "np.").replace("float('inf')", "np.inf").replace('float("inf")', "np.inf").replace("math.inf", "np.inf").split())
     import re as _re
     m = _re.fullmatch(r"(self\.\w+) (!=|<) np\.inf", t) or _re.fullmatch(r"np\.inf (!=|>) (self\.\w+)", t)
@@ -468,6 +484,55 @@ class HookResult:
         self.table_inits = []
 
 
+def normalise_guards(stmts, in_loop=False):
+    """`if c: A; continue` + REST  ->  `if c: A else: REST` (inside a loop);  `if c: A; return` + REST  ->  `if c: A else: REST`.
+    Works on clones; positions are kept."""
+    out = []
+    for i, s in enumerate(stmts):
+        if isinstance(s, ast.If) and not s.orelse and s.body and (
+                (in_loop and isinstance(s.body[-1], ast.Continue)) or (isinstance(s.body[-1], ast.Return) and s.body[-1].value is None)):
+            s2 = clone(s)
+            s2.body = normalise_guards(s2.body[:-1], in_loop) or [ast.Pass(lineno=s.lineno, col_offset=0)]
+            s2.orelse = normalise_guards([clone(x) for x in stmts[i + 1:]], in_loop)
+            out.append(s2)
+            return out
+        s2 = clone(s)
+        if isinstance(s2, ast.If):
+            s2.body = normalise_guards(s2.body, in_loop)
+            s2.orelse = normalise_guards(s2.orelse, in_loop)
+        elif isinstance(s2, (ast.For, ast.While)):
+            s2.body = normalise_guards(s2.body, True)
+        out.append(s2)
+    return out
+
+
+class _AliasSub(ast.NodeTransformer):
+    def __init__(self, aliases):
+        self.aliases = aliases
+
+    def visit_Name(self, node):
+        if isinstance(node.ctx, ast.Load) and node.id in self.aliases:
+            return clone(self.aliases[node.id])
+        return node
+
+
+def asub(node, ctx):
+    """node with the hook's local aliases (points = self.list_of_points, same = (point_i == point_j), loop-bound literals) substituted"""
+    al = ctx.get("alias")
+    if not al or node is None:
+        return node
+    return _AliasSub(al).visit(clone(node))
+
+
+def _aliasable(v):
+    """Right-hand sides that can be re-read at the use site: attribute chains, names, constants, comparisons / boolean combinations of those."""
+    for n in ast.walk(v):
+        if not isinstance(n, (ast.Name, ast.Attribute, ast.Constant, ast.Compare, ast.BoolOp, ast.UnaryOp, ast.Load, ast.And, ast.Or, ast.Not,
+                              ast.Eq, ast.NotEq, ast.Is, ast.IsNot, ast.Lt, ast.LtE, ast.Gt, ast.GtE, ast.In, ast.NotIn, ast.USub)):
+            return False
+    return True
+
+
 def analyse_hook(repo, cls, gens):
     """Interpret cls.add_class_constraints."""
     fn = cls.find_method(HOOK)
@@ -476,8 +541,12 @@ def analyse_hook(repo, cls, gens):
     res = HookResult()
     res.fn = fn
     res.cls = cls
-    ctx = {"guards": [], "loops": [], "env": {}, "matrices": {}, "psd": {}, "attr_sorts": {}}
-    _interp_block(repo, cls, fn, fn.body, ctx, res, gens)
+    ctx = {"guards": [], "loops": [], "env": {}, "matrices": {}, "psd": {}, "attr_sorts": {}, "alias": {}}
+    body = normalise_guards(fn.body)
+    from .model import set_parents
+    holder = ast.Module(body=body, type_ignores=[])
+    set_parents(holder)
+    _interp_block(repo, cls, fn, body, ctx, res, gens)
     return res
 
 
@@ -485,9 +554,9 @@ def _interp_block(repo, cls, fn, stmts, ctx, res, gens):
     for k, st in enumerate(stmts):
         # guard clause:  if <test>: return   -> the rest of the block runs under `not <test>`
         if isinstance(st, ast.If) and not st.orelse and len(st.body) == 1 and isinstance(st.body[0], ast.Return) and st.body[0].value is None \
-                and _is_same_sample_test(st.test, ctx) is None:
+                and _is_same_sample_test(asub(st.test, ctx), ctx) is None:
             ctx2 = dict(ctx)
-            ctx2["guards"] = ctx["guards"] + [guard_text(ast.UnaryOp(op=ast.Not(), operand=st.test))]
+            ctx2["guards"] = ctx["guards"] + [guard_text(ast.UnaryOp(op=ast.Not(), operand=asub(st.test, ctx)))]
             _interp_block(repo, cls, fn, stmts[k + 1:], ctx2, res, gens)
             return
         _interp_stmt(repo, cls, fn, st, ctx, res, gens)
@@ -516,8 +585,9 @@ def _interp_stmt(repo, cls, fn, st, ctx, res, gens):
         return
     if isinstance(st, ast.If):
         # creation of the stationary sample, parameter guards, same-sample skip
-        t = guard_text(st.test)
-        is_skip = _is_same_sample_test(st.test, ctx)
+        test = asub(st.test, ctx)
+        t = guard_text(test)
+        is_skip = _is_same_sample_test(test, ctx)
         if is_skip is not None:
             pos_emits = not is_skip      # branch in which the two samples differ
             body_same, body_diff = (st.body, st.orelse) if is_skip else (st.orelse, st.body)
@@ -531,11 +601,28 @@ def _interp_stmt(repo, cls, fn, st, ctx, res, gens):
         _interp_block(repo, cls, fn, st.body, ctx_t, res, gens)
         if st.orelse:
             ctx_f = dict(ctx)
-            ctx_f["guards"] = ctx["guards"] + [guard_text(st.test, False)]
+            ctx_f["guards"] = ctx["guards"] + [guard_text(test, False)]
             _interp_block(repo, cls, fn, st.orelse, ctx_f, res, gens)
         return
     if isinstance(st, ast.For):
-        base, enum = _iter_base(st.iter)
+        it0 = asub(st.iter, ctx)
+        if isinstance(it0, (ast.Tuple, ast.List)) and it0.elts and not any(isinstance(e, ast.Starred) for e in it0.elts):
+            # loop over a literal tuple (e.g. of (condition name, callback) pairs): unrolled
+            for e in it0.elts:
+                ctx_u = dict(ctx)
+                ctx_u["alias"] = dict(ctx["alias"])
+                ctx_u["env"] = dict(ctx["env"])
+                tg = st.target
+                if isinstance(tg, ast.Name):
+                    ctx_u["alias"][tg.id] = e
+                elif isinstance(tg, ast.Tuple) and isinstance(e, (ast.Tuple, ast.List)) and len(tg.elts) == len(e.elts) and all(isinstance(x, ast.Name) for x in tg.elts):
+                    for x, y in zip(tg.elts, e.elts):
+                        ctx_u["alias"][x.id] = y
+                else:
+                    raise AnalysisError("%s: loop `%s` over a literal outside the analysed fragment (%s)" % (cls.name, norm_stmt(st)[:60], where))
+                _interp_block(repo, cls, fn, st.body, ctx_u, res, gens)
+            return
+        base, enum = _iter_base(it0)
         role = list_role_of(base)
         ctx2 = dict(ctx)
         ctx2["env"] = dict(ctx["env"])
@@ -566,7 +653,11 @@ def _interp_stmt(repo, cls, fn, st, ctx, res, gens):
                 ctx2["env"][idx] = Opaque("index", suffix)
             _interp_block(repo, cls, fn, st.body, ctx2, res, gens)
             return
-        bvar = _block_loop_var(st, ctx)
+        st_b = st
+        if it0 is not st.iter:
+            st_b = clone(st)
+            st_b.iter = it0
+        bvar = _block_loop_var(st_b, ctx)
         if bvar is not None:
             ctx2["loops"] = ctx["loops"] + [{"kind": "blocks", "var": bvar, "node": st}]
             ctx2["env"][bvar] = Opaque("block", "k")
@@ -613,6 +704,13 @@ def _interp_stmt(repo, cls, fn, st, ctx, res, gens):
             g0 = st.value.generators[0]
             if isinstance(g0.iter, ast.Call) and call_name(g0.iter) == "range" and len(g0.iter.args) == 1 and _is_block_count(g0.iter.args[0], ctx):
                 ctx["env"][tgt.id] = Opaque("blocklist")
+                return
+        if isinstance(tgt, ast.Name) and _aliasable(st.value) and not isinstance(st.value, ast.Constant):
+            # a local that only re-reads something (a list attribute, a same-sample test): kept as an alias, substituted at its uses
+            sub = asub(st.value, ctx)
+            if list_role_of(sub) is not None or _is_same_sample_test(sub, ctx) is not None or (isinstance(sub, ast.Attribute) and dotted(sub) and dotted(sub).startswith("self.") and isinstance(cls.find_method(sub.attr), ast.FunctionDef)):
+                ctx["alias"] = dict(ctx["alias"])
+                ctx["alias"][tgt.id] = sub
                 return
         ev = _hook_env_eval(cls, ctx)
         try:
@@ -801,11 +899,11 @@ def _generator_call(repo, cls, fn, call, ctx, res, gens, where):
     bound = {}
     gparams = g.params[1:]
     for k, a in enumerate(call.args):
-        bound[gparams[k]] = a
+        bound[gparams[k]] = asub(a, ctx)
     for kw in call.keywords:
         if kw.arg is None:
             raise AnalysisError("%s: **kwargs in a generator call (%s)" % (cls.name, where))
-        bound[kw.arg] = kw.value
+        bound[kw.arg] = asub(kw.value, ctx)
     lists, list_exprs = [], []
     for lp in g.loops:
         if lp["param"] is None or lp["param"] not in bound:
